@@ -35,7 +35,8 @@ def plan(tier):
     return {"cases": 24000 if tier == "quick" else 400000, "shards": 16, "case_timeout": 20,
             "shard_timeout": 3000, "min_nontrivial": 300 if tier == "quick" else 2000,
             "min_counters": {"rows_compared": 5000, "family:core": 100, "family:rich": 100, "family:flat": 50,
-                             "family:forall": 50, "family:E2": 30, "family:sub": 30, "family:subscalar": 30}}
+                             "family:forall": 50, "family:E2": 30, "family:sub": 30, "family:subscalar": 30,
+                             "reevaluations_after_in_place_changes": 1500}}
 
 
 def setup(ctx):
@@ -99,6 +100,8 @@ def gen(rng, tier, ctx):
     spec["family"] = fam
     # one expression object per written term, or one shared object for all occurrences of the same term
     spec["share_terms"] = rng.random() < 0.3
+    # a fifth of the cases are evaluated a second time after in-place changes of the world
+    spec["again"] = rng.randrange(1, 10 ** 6) if rng.random() < 0.2 else None
     return spec
 
 
@@ -400,6 +403,12 @@ def run(spec, ctx):
             except G.OracleError:
                 cand = 0
         nontrivial = 0 < len(set(exp)) < cand
+        if spec.get("again"):
+            # the same query object once more after the objects it ranges over were changed IN PLACE (attributes
+            # re-assigned, elements appended to / removed from the very list objects): it answers for the world as it is now
+            problem = evaluate_again(spec, m, C, spec["again"])
+            if problem is not None:
+                return problem
         return {"status": "ok", "nontrivial": nontrivial, "shape": G.skeleton(spec),
                 "obs": {"rows": len(got), "distinct_rows": len(set(got)), "candidates": cand}}
     key = classify(spec, m, objs, got, exp, err)
@@ -413,6 +422,49 @@ def run(spec, ctx):
     C["fail:" + (key or "UNEXPLAINED")] += 1
     return {"status": "fail", "kind": kind, "key": key, "detail": detail + " | " + G.skeleton(spec),
             "obs": {"got": sorted(set(got))[:10], "expected": sorted(set(exp))[:10]}}
+
+
+def change_in_place(objs, seed):
+    import random
+    rng = random.Random(seed)
+    for o in objs:
+        r = rng.random()
+        if r < 0.4 and o.items:
+            o.items.pop(rng.randrange(len(o.items)))
+        elif r < 0.8:
+            o.items.append(rng.randint(0, 2))
+        if rng.random() < 0.4:
+            o.a = (o.a + 1) % 3
+        if rng.random() < 0.3:
+            o.b = (o.b + 1) % 3
+        if rng.random() < 0.3:
+            o.d["k"] = (o.d["k"] + 1) % 3
+        if o.kids and rng.random() < 0.3:
+            o.kids.pop()
+
+
+def evaluate_again(spec, m, C, seed):
+    objs = G.make_world(spec, m)
+    try:
+        got2, err2 = G.evaluate_again_after(spec, m, objs, lambda os_: change_in_place(os_, seed))
+    except Exception as e:
+        got2, err2 = [], e
+    try:
+        exp2 = G.oracle(spec, m, objs)        # the oracle reads the changed objects
+    except G.OracleError:
+        return None
+    C["reevaluations_after_in_place_changes"] += 1
+    if err2 is None and set(got2) == set(exp2):
+        return None
+    key = classify(spec, m, objs, got2, exp2, err2)
+    if err2 is not None:
+        kind, detail = "again:exception:" + type(err2).__name__, f"{type(err2).__name__}: {err2}"[:300]
+    else:
+        sg, se = set(got2), set(exp2)
+        kind = "again:" + ("extra" if sg - se else "") + ("+" if (sg - se and se - sg) else "") + ("missing" if se - sg else "")
+        detail = f"second evaluation after in-place changes: extra={sorted(sg - se)[:4]} missing={sorted(se - sg)[:4]} expected={len(se)} got={len(sg)}"
+    C["fail:" + (key or "UNEXPLAINED")] += 1
+    return {"status": "fail", "kind": kind, "key": key, "detail": detail + " | " + G.skeleton(spec)}
 
 
 def _w(cond, select, vars_, derived=(), world=None, mode="set_of"):
